@@ -544,3 +544,129 @@ func (p *Program) ruleMembersNonEmpty(c *Check) {
 	}
 	c.Floor("E6.members", n, 2, "stores to extra.members")
 }
+
+// ruleStride: the extra ordinates (z/m) are stored with one fixed stride:
+// the reader appends exactly `dims` values per appended position, `dims` is
+// fixed when the extra block is created at the first position, and the
+// writer reads values[idx*dims+i] for i < dims with the same dims field.
+func (p *Program) ruleStride(c *Check) {
+	for _, fname := range []string{"parseJSONLineStringCoords", "parseJSONPolygonCoords"} {
+		fn := p.Func("geojson", fname)
+		fd := p.Decl(fn)
+		con := "geojson." + fname + "#stride"
+		if fd == nil {
+			c.Undecided("E6.stride", con, "", "coordinate parser not found")
+			continue
+		}
+		var problems []string
+		posAppends, valueLoops, bulk, dimsAssign, firstGuard := 0, 0, 0, 0, 0
+		var loopBound string
+		ast.Inspect(fd.Body, func(n ast.Node) bool {
+			switch x := n.(type) {
+			case *ast.AssignStmt:
+				for i, l := range x.Lhs {
+					if i >= len(x.Rhs) {
+						continue
+					}
+					call, ok := x.Rhs[i].(*ast.CallExpr)
+					if ok && types.ExprString(call.Fun) == "append" && len(call.Args) >= 2 {
+						lt := types.ExprString(l)
+						if strings.HasSuffix(lt, ".values") {
+							if call.Ellipsis.IsValid() || len(call.Args) != 2 {
+								bulk++
+							}
+						} else if cl, ok := call.Args[1].(*ast.CompositeLit); ok && (types.ExprString(cl.Type) == "geometry.Point" || types.ExprString(cl.Type) == "Point") {
+							posAppends++
+						}
+					}
+					if ok && strings.HasPrefix(types.ExprString(x.Rhs[i]), "int(") && strings.HasSuffix(types.ExprString(call.Args[0]), ".dims") {
+						dimsAssign++
+						loopBoundCandidate := types.ExprString(l)
+						if loopBound == "" {
+							loopBound = loopBoundCandidate
+						}
+					}
+				}
+			case *ast.ForStmt:
+				// for i := 0; i < D; i++ { X.values = append(X.values, nums[2+i]) }
+				if cond, ok := x.Cond.(*ast.BinaryExpr); ok && cond.Op == token.LSS && len(x.Body.List) == 1 {
+					if as, ok := x.Body.List[0].(*ast.AssignStmt); ok && len(as.Lhs) == 1 && strings.HasSuffix(types.ExprString(as.Lhs[0]), ".values") {
+						if call, ok := as.Rhs[0].(*ast.CallExpr); ok && types.ExprString(call.Fun) == "append" && len(call.Args) == 2 && !call.Ellipsis.IsValid() {
+							valueLoops++
+							if b := types.ExprString(cond.Y); loopBound != "" && b != loopBound {
+								problems = append(problems, "the value loop runs to "+b+", not to the stored dimension "+loopBound)
+							}
+						}
+					}
+				}
+			case *ast.IfStmt:
+				cs := types.ExprString(x.Cond)
+				if strings.Contains(cs, "len(") && strings.Contains(cs, "> 1") {
+					firstGuard++
+				}
+			}
+			return true
+		})
+		if posAppends != 1 {
+			problems = append(problems, fmt.Sprintf("%d position appends (expected one per parsed position, in one place)", posAppends))
+		}
+		if valueLoops != 1 {
+			problems = append(problems, fmt.Sprintf("%d per-position value loops (expected exactly one `for i < dims { values = append(values, …) }`)", valueLoops))
+		}
+		if bulk > 0 {
+			problems = append(problems, "extra values are appended in bulk (append(values, other...)): blocks parsed with different dimensions can be concatenated, so values[idx*dims+i] runs past the end or reads the wrong position")
+		}
+		if dimsAssign != 1 {
+			problems = append(problems, fmt.Sprintf("the stride is fixed in %d places (expected once, from ex.dims)", dimsAssign))
+		}
+		if firstGuard < 1 {
+			problems = append(problems, "no guard restricts the creation of the extra block to the first position")
+		}
+		if len(problems) == 0 {
+			c.OK("E6.stride", con, p.declPos(fn), "one position append and one dims-bounded value loop per position; the stride is fixed once from ex.dims at the first position")
+		} else {
+			o := c.Bad("E6.stride", con, p.declPos(fn), problems[0])
+			o.Path = problems
+		}
+	}
+	// writer
+	wf := p.Func("geojson", "appendJSONPoint")
+	fd := p.Decl(wf)
+	if fd == nil {
+		c.Undecided("E6.stride", "geojson.appendJSONPoint#stride", "", "writer not found")
+		return
+	}
+	good := false
+	var dimsVar string
+	ast.Inspect(fd.Body, func(n ast.Node) bool {
+		if as, ok := n.(*ast.AssignStmt); ok && len(as.Lhs) == 1 && len(as.Rhs) == 1 {
+			if call, ok := as.Rhs[0].(*ast.CallExpr); ok && types.ExprString(call.Fun) == "int" && len(call.Args) == 1 && strings.HasSuffix(types.ExprString(call.Args[0]), ".dims") {
+				dimsVar = types.ExprString(as.Lhs[0])
+			}
+		}
+		if fs, ok := n.(*ast.ForStmt); ok && dimsVar != "" {
+			if cond, ok := fs.Cond.(*ast.BinaryExpr); ok && cond.Op == token.LSS && types.ExprString(cond.Y) == dimsVar {
+				iv := types.ExprString(cond.X)
+				ast.Inspect(fs.Body, func(m ast.Node) bool {
+					if ix, ok := m.(*ast.IndexExpr); ok && strings.HasSuffix(types.ExprString(ix.X), ".values") {
+						s := strings.ReplaceAll(types.ExprString(ix.Index), " ", "")
+						idx := ""
+						for _, f := range fd.Type.Params.List {
+							for _, nm := range f.Names {
+								if b, ok := f.Type.(*ast.Ident); ok && b.Name == "int" {
+									idx = nm.Name
+								}
+							}
+						}
+						if s == idx+"*"+dimsVar+"+"+iv || s == dimsVar+"*"+idx+"+"+iv || s == iv+"+"+idx+"*"+dimsVar {
+							good = true
+						}
+					}
+					return true
+				})
+			}
+		}
+		return true
+	})
+	c.Expect(good, "E6.stride", "geojson.appendJSONPoint#stride", p.declPos(wf), "reads values[idx*dims+i] for i < dims with dims = int(ex.dims)", "the writer does not read the extra ordinates at idx*dims+i for i < dims with the stored dims")
+}
